@@ -702,7 +702,9 @@ func (w *TreeWalker) Next() (name string, entry TreeEntry, err error) {
 		name = simpleJoin(w.base, entry.Name)
 
 		if err != nil {
-			err = io.EOF
+			// A subtree that cannot be read is an error of the walk, not
+			// its end: reporting io.EOF here made every consumer take a
+			// truncated tree for a complete one.
 			return name, entry, err
 		}
 
